@@ -123,6 +123,23 @@ pub fn pcorpus() -> PCorpus {
         ],
     });
 
+    // declaration order and field numbers disagree: fields and oneof members numbered out of order
+    c.msgs.push(PMsg {
+        name: "Scrambled",
+        fields: vec![
+            f(7, Int32, Single),
+            f(2, String, Oneof("payload")),
+            f(9, Bytes, Oneof("payload")),
+            f(4, Int32, Oneof("payload")),
+            // (field number 3, inside the members' range, is deliberately not declared)
+            f(6, String, Single),
+            f(12, Msg("Small"), Oneof("second")),
+            f(10, Int64, Oneof("second")),
+            f(11, Bool, Oneof("second")),
+            f(1, Fixed64, Repeated),
+            f(5, Msg("Small"), Optional),
+        ],
+    });
     // recursion: direct, through repeated, through map values, mutual
     c.msgs.push(PMsg {
         name: "Node",
